@@ -53,6 +53,10 @@ func init() {
 			for _, na := range []int{1000, 400000} {
 				emit(Case{Op: fmt.Sprintf("smf.manyaliens n=%d", na), Tags: []string{"many-alien-chunks"}, NonTrivial: true})
 			}
+			// files with very many (mostly empty) tracks: beyond 2^15 and up to the 2^16-1 the header can declare; whole and cut
+			for _, nt := range []int{300, 32767, 32768, 32769, 40000, 65535} {
+				emit(Case{Op: fmt.Sprintf("smf.manytracks n=%d", nt), Tags: []string{"many-tracks"}, NonTrivial: true})
+			}
 			for i := 0; i < nc; i++ {
 				b := genRawSMF(r)
 				emit(Case{Op: "smf.read " + hx(b), Tags: []string{"stream-c:raw"}, NonTrivial: len(b) > 14})
@@ -252,6 +256,10 @@ func isEventPrefix(c, o string) bool {
 
 func runC05(c Case, m *Model) (v Verdict) {
 	v.Counts = map[string]int{}
+	if strings.HasPrefix(c.Op, "smf.manytracks") {
+		runManyTracks(c.Op, &v)
+		return
+	}
 	if strings.HasPrefix(c.Op, "smf.manyaliens") {
 		var n int
 		fmt.Sscanf(fields(c.Op)["n"], "%d", &n)
@@ -410,4 +418,64 @@ func runLongTrack(op string, v *Verdict) {
 			n/4, len(small), a1, n, len(big), a2, op))
 	}
 	v.Counts = map[string]int{"reads": 2}
+}
+
+// runManyTracks: a well-formed format-1 file of n tracks (every 1000th carries a note, the others only their end-of-track):
+// it reads back with n tracks and the notes where they were; cut after k complete chunks it fails cleanly or gives a prefix.
+func runManyTracks(op string, v *Verdict) {
+	var n int
+	fmt.Sscanf(fields(op)["n"], "%d", &n)
+	if n < 1 || n > 65535 {
+		v.Mismatch = append(v.Mismatch, "bad op")
+		return
+	}
+	b := make([]byte, 0, 14+12*n+n/100)
+	b = append(b, 'M', 'T', 'h', 'd', 0, 0, 0, 6, 0, 1, byte(n>>8), byte(n), 0, 96)
+	var ends []int
+	for i := 0; i < n; i++ {
+		if i%1000 == 7 {
+			b = append(b, 'M', 'T', 'r', 'k', 0, 0, 0, 8, 0x00, 0x90, byte(i>>9)&0x7F, 0x40, 0x00, 0xFF, 0x2F, 0x00)
+		} else {
+			b = append(b, 'M', 'T', 'r', 'k', 0, 0, 0, 4, 0x00, 0xFF, 0x2F, 0x00)
+		}
+		ends = append(ends, len(b))
+	}
+	judge := func(data []byte, whole bool, what string) {
+		var s *smf.SMF
+		var err error
+		if p := try(func() { s, err = smf.ReadFrom(bytes.NewReader(data)) }); p != "" {
+			v.Oracle = append(v.Oracle, fmt.Sprintf("ReadFrom panicked on %s of a well-formed file of %d tracks: %s", what, n, short(p)))
+			return
+		}
+		if whole {
+			if err != nil || s == nil || len(s.Tracks) != n {
+				got := -1
+				if s != nil {
+					got = len(s.Tracks)
+				}
+				v.Oracle = append(v.Oracle, fmt.Sprintf("a well-formed file of %d tracks reads as error %v with %d tracks", n, err, got))
+				return
+			}
+			for i, tr := range s.Tracks {
+				want := 1
+				if i%1000 == 7 {
+					want = 2
+				}
+				if len(tr) != want {
+					v.Oracle = append(v.Oracle, fmt.Sprintf("file of %d tracks: track %d has %d events, the file has %d there", n, i, len(tr), want))
+					return
+				}
+			}
+		}
+	}
+	judge(b, true, "the whole")
+	if len(v.Oracle) > 0 {
+		return
+	}
+	for _, k := range []int{n / 2, 32767, 32768, 32769, n - 1} {
+		if k >= 1 && k < n {
+			judge(b[:ends[k-1]], false, fmt.Sprintf("the first %d chunks", k))
+			judge(b[:ends[k-1]+9], false, fmt.Sprintf("the first %d chunks and 9 bytes", k))
+		}
+	}
 }
